@@ -342,6 +342,8 @@ def run(ctx):
     # "input with trailing or missing bytes is rejected": the framing clauses of the top-level decoders (shared with C13.3)
     from . import c13
     c13.framing(ctx, "C14.4")
+    c14_4_cursor(ctx, seen)
+    c14_5_trust(ctx, seen)
 
 
 def c14_1(ctx, seen):
@@ -521,3 +523,66 @@ def _backreach(b, h):
                 seen.add(p)
                 st.append(p)
     return seen
+
+
+ALLOWED_IO = ("std::io::cursor::Cursor::<T>::position", "std::io::cursor::Cursor::<T>::new", "std::io::cursor::Cursor::<T>::get_ref",
+              "std::io::cursor::Cursor::<T>::set_position")
+MAY_SET_POSITION = ("chia_traits::streamable::read_bytes", "<chia_protocol::program::Program as chia_traits::streamable::Streamable>::parse")
+
+
+def c14_4_cursor(ctx, seen):
+    """'input with missing bytes is rejected': inside the decode closure the input cursor is touched only through
+    position / get_ref / set_position (explicit, bounds-checked arithmetic in read_bytes and Program::parse) -- never through
+    std::io::Read::read (which returns Ok(0) on an exhausted buffer, so a missing byte reads as a zero), read_to_end, Seek or
+    BufRead; and only the two audited functions move the position."""
+    R = "C14.4"
+    fb = ctx.fb
+    bad = []
+    movers = set()
+    n = 0
+    for p in sorted(seen):
+        f = fb.fns[p]
+        for c in f.e.get("calls", []):
+            nm = c.get("res") or c.get("def") or "?"
+            full = nm
+            if "std::io" in nm or "::io::" in nm:
+                n += 1
+                if nm not in ALLOWED_IO:
+                    bad.append("%s calls %s" % (p, full))
+                if nm.endswith("set_position"):
+                    movers.add(p)
+    ctx.ob(R, "cursor-access", not bad, "decoders touch the input cursor only through position/get_ref/set_position (no std::io::Read::read etc.)",
+           found=bad[:4] or None)
+    ctx.ob(R, "cursor-movers", movers <= set(MAY_SET_POSITION) and bool(movers),
+           "only read_bytes and Program::parse advance the cursor (both compare against the buffer length first)", found=sorted(movers))
+    ctx.floor(R, "std::io call sites in the decode closure", n, 6)
+
+
+def c14_5_trust(ctx, seen):
+    """the untrusted decoder validates: in every Streamable::parse body a call to a validation-skipping primitive
+    (`*_unchecked`, `*_trusted`) is dominated by the branch TRUSTED == true.  A value accepted by from_bytes() has therefore
+    passed the checked primitive, which is what lets later receiver operations (Program::run's node_from_bytes(..).expect,
+    point arithmetic) assume well-formedness."""
+    R = "C14.5"
+    fb = ctx.fb
+    n = 0
+    bad = []
+    for p in sorted(seen):
+        if not re.match(r"^<.* as chia_traits::streamable::Streamable>::parse$", p):
+            continue
+        b = Body(fb.fns[p], fb)
+        for bi, name, t in b.calls():
+            fl = U.flat(name)
+            last = fl.split("::")[-1]
+            if not (last.endswith("_unchecked") or last.endswith("_trusted")):
+                continue
+            if last in ("get_unchecked", "unwrap_unchecked"):
+                continue
+            n += 1
+            conds = [(strip_all(c[0]), c[1]) for c in b.dominating_conditions(bi)]
+            ok = any(c[0] and c[0][0] == "cparam" and c[0][1] == "TRUSTED" and c[1] == ("bool", True) for c in conds)
+            if not ok:
+                bad.append("%s calls %s outside `if TRUSTED` (%s)" % (p, fl, b.where(bi)))
+    ctx.ob(R, "unchecked-only-when-trusted", not bad,
+           "validation-skipping primitives are reachable in parse only under TRUSTED == true", found=bad[:4] or None)
+    ctx.floor(R, "validation-skipping calls in Streamable::parse bodies", n, 3)
